@@ -27,12 +27,10 @@ package main
 //vc:  ensures[C13] @plainOrBzip2 bytes(result) == stored(onDisk, disk, p)
 
 //vc:func check
-//vc:  requires policy != ""
+//vc:  requires[C13] policy != ""
 //vc:  requires[C13] InvApprove(statusFile[device], hasOK[device], tOK[device], pOK[device])
 //vc:  requires[C13] InvCompare(statusFile[device], hasOK[device], tOK[device], hasCmp[device], tCmp[device], pCmp[device], chg[device])
 //vc:  requires[C13] InvTimes(statusFile[device], hasOK[device], tOK[device], hasCmp[device], tCmp[device], now)
-//vc:  requires hasOK[device] ==> pOK[device] != ""
-//vc:  requires hasCmp[device] ==> pCmp[device] != ""
 //vc:  let est = establishes(hasOK[device], tOK[device], pOK[device], hasCmp[device], tCmp[device], pCmp[device], chg[device],
 //vc:        pOK[device] == policy || codeEq(onDisk, disk, policies, pOK[device], policy, device),
 //vc:        pCmp[device] == policy || codeEq(onDisk, disk, policies, pCmp[device], policy, device))
@@ -45,3 +43,16 @@ package main
 //vc:        (rangeindex >= 1 ==> fileEq(onDisk, disk, policies, devicePolicy, policy, dir, device + ".raw"))
 //vc:  ensures[C13] @listedUnlessEstablished !est ==> printedLines == old(printedLines) + 1
 //vc:  ensures[C13] @omittedIfEstablished est ==> printedLines == old(printedLines)
+
+// Every device file below code/ is checked once; the walk callback runs under
+// the invariant of the status directory.
+//vc:func Main
+//vc:  requires[C13] InvAll(statusFile, hasOK, tOK, pOK, hasCmp, tCmp, pCmp, chg, now)
+//vc:  assert[C13] at "filepath.WalkDir(" @policyNonEmpty policy != ""
+
+//vc:func Main$1
+//vc:  requires[C13] InvAll(statusFile, hasOK, tOK, pOK, hasCmp, tCmp, pCmp, chg, now)
+//vc:  requires[C13] policy != ""
+
+//vc:func main
+//vc:  requires[C13] InvAll(statusFile, hasOK, tOK, pOK, hasCmp, tCmp, pCmp, chg, now)
